@@ -11,13 +11,13 @@
 
 namespace schedx {
 
-enum { PK_NONE = 0, PK_LOCK, PK_WAIT, PK_SOCK, PK_JOIN, PK_JOINALL, PK_BEGIN };
+enum { PK_NONE = 0, PK_LOCK, PK_WAIT, PK_SOCK, PK_JOIN, PK_JOINALL, PK_BEGIN, PK_IDLE };
 enum { TS_UNUSED = 0, TS_LIVE, TS_FINISHED };
 static const int MAXT = 32;
 
 struct Thr {
    int state; int pendKind; const void * pendObj; const volatile unsigned int * pendCount; int pendFd; int pendTimed; int pendTarget;
-   volatile int go; int callKind; const void * threadObj; bool chosenTimeout; pthread_t * os; const char * pendTag; unsigned timeouts;
+   volatile int go; int callKind; const void * threadObj; bool chosenTimeout; pthread_t * os; const char * pendTag; unsigned timeouts; bool idleReleased;
 };
 struct MState { int owner; int rec; };
 
@@ -37,7 +37,7 @@ static __thread int t_tid = -1;
 static void FutexWait(volatile int * a) { while (__atomic_load_n(a, __ATOMIC_ACQUIRE) == 0) syscall(SYS_futex, a, FUTEX_WAIT, 0, NULL, NULL, 0); __atomic_store_n(a, 0, __ATOMIC_RELAXED); }
 static void FutexWake(volatile int * a) { __atomic_store_n(a, 1, __ATOMIC_RELEASE); syscall(SYS_futex, a, FUTEX_WAKE, 1, NULL, NULL, 0); }
 
-static const char * KindName(int k) { static const char * n[] = {"op", "lock", "wait", "sockwait", "join", "joinall", "begin"}; return n[k]; }
+static const char * KindName(int k) { static const char * n[] = {"op", "lock", "wait", "sockwait", "join", "joinall", "begin", "idle"}; return n[k]; }
 
 // Sends this execution's outcome.  In a fresh child (fork-per-execution mode) the process then exits.  In worker mode (many
 // executions per process) the text is framed; the process exits only when the execution cannot be unwound (parked threads).
@@ -77,6 +77,10 @@ static bool Enabled(int tid)
    case PK_SOCK: { struct pollfd p; p.fd = t.pendFd; p.events = POLLIN; p.revents = 0; return poll(&p, 1, 0) > 0; }
    case PK_JOIN: return S->thr[t.pendTarget].state == TS_FINISHED;
    case PK_JOINALL: for (int i = 0; i < S->nthr; i++) if (i != tid && S->thr[i].state == TS_LIVE) return false; return true;
+   case PK_IDLE:   // "busy elsewhere for a long time": stays disabled until every other live thread is blocked (or finished); once released it stays enabled
+      if (t.idleReleased) return true;
+      for (int i = 0; i < S->nthr; i++) if (i != tid && S->thr[i].state == TS_LIVE && S->thr[i].pendKind != PK_IDLE && Enabled(i)) return false;
+      t.idleReleased = true; return true;
    }
    return true;
 }
@@ -123,7 +127,7 @@ static int Schedule(int from)
 static bool Point(int kind, const void * obj, const volatile unsigned int * cnt, int fd, int timed, int target, const char * tag)
 {
    const int me = t_tid; Thr & t = S->thr[me];
-   t.pendKind = kind; t.pendObj = obj; t.pendCount = cnt; t.pendFd = fd; t.pendTimed = timed; t.pendTarget = target; t.pendTag = tag; t.chosenTimeout = false;
+   t.pendKind = kind; t.pendObj = obj; t.pendCount = cnt; t.pendFd = fd; t.pendTimed = timed; t.pendTarget = target; t.pendTag = tag; t.chosenTimeout = false; t.idleReleased = false;
    if (++S->points > S->maxPoints) { if (!S->failed) { S->failed = true; S->failKey = "livelock"; S->failMsg = verif::Fmt("more than %u scheduling points in one execution:", S->maxPoints) + DescribeThreads(); } Report("LIVELOCK", true); }
    bool failNow = false;
    if ((kind == PK_WAIT || kind == PK_SOCK) && !S->failed) {
@@ -217,6 +221,7 @@ void Join(int tid)
    (void) Point(PK_JOIN, NULL, NULL, -1, 0, tid, "join");
    if (S->thr[tid].os) { pthread_join(*S->thr[tid].os, NULL); delete S->thr[tid].os; S->thr[tid].os = NULL; }
 }
+void Idle(const char * tag) { if (!UnderScheduler()) { std::this_thread::yield(); return; } if (t_tid >= 0) (void) Point(PK_IDLE, NULL, NULL, -1, 0, -1, tag); }
 void Yield(const char * tag) { if (!UnderScheduler()) { std::this_thread::yield(); return; } if (t_tid >= 0) (void) Point(PK_NONE, NULL, NULL, -1, 0, -1, tag); }
 void WatchAtomic(const volatile void * a) { if (S) S->watched.insert(a); }
 void WatchAllAtomics(bool on) { if (S) S->watchAll = on; }
@@ -288,7 +293,14 @@ void FreeRunPart(const std::string & partName, const BodyFactory & factory, cons
 // Every process that runs scheduled executions first runs the body ONCE free (no scheduler): muscle initialises some process-wide
 // objects lazily under a Mutex on first use (one extra lock point in the first execution only), and executions must not depend on
 // whether they are the first one in their process.  Replays and explorer workers do the same, so all modes agree.
-static void WarmUp(const std::function<void()> & body) { g_ignoreFreeRunFailures = true; FreeRun(body, 1); g_ignoreFreeRunFailures = false; }   // only its side effect on process-wide state matters; its verdict is ignored
+static void WarmUp(const std::function<void()> & body)
+{
+   // The free run uses real concurrency, so on a defective tree it can hang or crash by itself: a 5 s real-time alarm ends the process, and the
+   // caller (which has not yet seen this process's READY marker) simply starts over with a fresh process.
+   signal(SIGALRM, SIG_DFL); alarm(5);
+   g_ignoreFreeRunFailures = true; FreeRun(body, 1); g_ignoreFreeRunFailures = false;
+   alarm(0);
+}   // only its side effect on process-wide state matters; its verdict is ignored
 
 // ---------------------------------------------------------------- one execution (child side)
 static void ChildMain(const std::function<void()> & body, const std::vector<unsigned char> & choices, const Options & opt, int reportFd, bool framed)
@@ -347,6 +359,7 @@ static void Launch(Child & c, const std::function<void()> & body, const std::vec
    if (pid == 0) {
       close(p[0]); if (!getenv("SCHEDX_TRACE")) { int ef = open(c.errfile.c_str(), O_WRONLY | O_CREAT | O_TRUNC, 0644); if (ef >= 0) { dup2(ef, 2); close(ef); } }
       WarmUp(body);
+      { const char * rdy = "READY\n"; if (write(p[1], rdy, 6) != 6) _exit(4); }
       ChildMain(body, prefix, opt, p[1], false); _exit(0);
    }
    close(p[1]); c.pid = pid; c.fd = p[0]; c.buf.clear(); c.prefix = prefix; c.t0 = verif::NowS();
@@ -375,19 +388,25 @@ static void Finish(Child & c, Outcome & o, bool killed)
 
 Outcome RunOne(const std::function<void()> & body, const std::vector<unsigned char> & choices, const Options & opt)
 {
-   Child c; Launch(c, body, choices, opt, 999);
-   bool killed = false;
-   while (true) {
-      struct pollfd p; p.fd = c.fd; p.events = POLLIN; p.revents = 0; int r = poll(&p, 1, 200);
-      if (r > 0) { char b[65536]; ssize_t n = read(c.fd, b, sizeof(b)); if (n > 0) c.buf.append(b, (size_t)n); else if (n == 0) break; else if (errno != EINTR && errno != EAGAIN) break; }
-      if (verif::NowS() - c.t0 > opt.execTimeoutS * 3) { kill(c.pid, SIGKILL); killed = true; break; }
+   Outcome o;
+   for (int attempt = 0; attempt < 6; attempt++) {
+      Child c; Launch(c, body, choices, opt, 999);
+      bool killed = false;
+      while (true) {
+         struct pollfd p; p.fd = c.fd; p.events = POLLIN; p.revents = 0; int r = poll(&p, 1, 200);
+         if (r > 0) { char b[65536]; ssize_t n = read(c.fd, b, sizeof(b)); if (n > 0) c.buf.append(b, (size_t)n); else if (n == 0) break; else if (errno != EINTR && errno != EAGAIN) break; }
+         if (verif::NowS() - c.t0 > opt.execTimeoutS * 3) { kill(c.pid, SIGKILL); killed = true; break; }
+      }
+      const bool ready = c.buf.find("READY\n") != std::string::npos;
+      o = Outcome(); Finish(c, o, killed);
+      if (ready) return o;   // otherwise the process ended inside its free warm-up run: not a statement about this schedule, try again
    }
-   Outcome o; Finish(c, o, killed); return o;
+   return o;
 }
 
 // ---------------------------------------------------------------- worker pool: W single-threaded "zygote" processes, each forks its own execution children, so that
 // the (expensive, ASan-sized) forks run in parallel instead of serially in the explorer parent.
-struct Worker { pid_t pid; int cmdFd, respFd; bool busy; std::vector<unsigned char> prefix; std::string buf; double t0; };
+struct Worker { pid_t pid; int cmdFd, respFd; bool busy; std::vector<unsigned char> prefix; std::string buf; double t0; bool ready; };
 static std::vector<Worker> g_pool; static BodyFactory g_factory; static Options g_poolOpt;
 
 static void WriteAll(int fd, const void * p, size_t n) { const char * c = (const char *)p; while (n > 0) { ssize_t w = write(fd, c, n); if (w <= 0) { if (errno == EINTR) continue; _exit(4); } c += w; n -= (size_t)w; } }
@@ -405,6 +424,7 @@ static void WorkerLoop(int cmdFd, int respFd, int slot)
       Options opt = g_poolOpt; opt.bound = (int)hdr[2];
       std::function<void()> body = g_factory(cfg);
       if (warmed.insert(cfg).second) WarmUp(body);
+      { uint32_t len = 6; WriteAll(respFd, &len, sizeof(len)); WriteAll(respFd, "READY\n", 6); }
       // The execution runs IN this process (a fork per execution costs ~25 ms of kernel time under ASan).  Executions that end with
       // every thread finished (OK / VIOLATION) return here; anything else (deadlock, livelock, divergence, crash) ends the process
       // after reporting and the parent starts a fresh worker.  Failing executions are re-confirmed by the parent in fresh processes.
@@ -441,13 +461,13 @@ void Explore(const std::string & partName, const std::string & configArgs, const
    std::vector<std::vector<unsigned char> > work; work.push_back(std::vector<unsigned char>());
    unsigned long executions = 0, totalPoints = 0, totalChoicePoints = 0; unsigned long perBound[8] = {0, 0, 0, 0, 0, 0, 0, 0};
    std::set<verif::Hash128> observations; std::map<std::string, unsigned long> statusCounts; std::map<std::string, int> perKey; std::map<std::string, unsigned long> keyCounts;
-   std::vector<std::string> notes; bool capped = false; std::string cap; unsigned long maxPointsSeen = 0; size_t nbusy = 0; unsigned long failingExecutions = 0; std::map<std::string, int> retries;
+   std::vector<std::string> notes; bool capped = false; std::string cap; unsigned long maxPointsSeen = 0; size_t nbusy = 0; unsigned long failingExecutions = 0; std::map<std::string, int> retries; unsigned warmupDeaths = 0;
    std::vector<std::string> samples;
    while (!work.empty() || nbusy > 0) {
       for (size_t w = 0; w < g_pool.size() && !work.empty(); w++) if (!g_pool[w].busy) {
          if (absDeadline > 0 && verif::NowS() > absDeadline) { capped = true; cap = "deadline"; work.clear(); break; }
          if (opt.maxExecutions && executions + nbusy >= opt.maxExecutions) { capped = true; cap = verif::Fmt("execution cap %lu", opt.maxExecutions); work.clear(); break; }
-         Worker & wk = g_pool[w]; wk.prefix = work.back(); work.pop_back(); wk.busy = true; wk.buf.clear(); wk.t0 = verif::NowS(); nbusy++;
+         Worker & wk = g_pool[w]; wk.prefix = work.back(); work.pop_back(); wk.busy = true; wk.buf.clear(); wk.t0 = verif::NowS(); wk.ready = false; nbusy++;
          uint32_t hdr[3] = { (uint32_t)configArgs.size(), (uint32_t)wk.prefix.size(), (uint32_t)opt.bound };
          WriteAll(wk.cmdFd, hdr, sizeof(hdr)); WriteAll(wk.cmdFd, configArgs.data(), configArgs.size()); if (!wk.prefix.empty()) WriteAll(wk.cmdFd, &wk.prefix[0], wk.prefix.size());
       }
@@ -461,13 +481,22 @@ void Explore(const std::string & partName, const std::string & configArgs, const
          Outcome o; bool have = false;
          if (pf[k].revents) {
             uint32_t len = 0; std::string text; bool ok = ReadAll(wk.respFd, &len, sizeof(len)); if (ok && len) { text.resize(len); ok = ReadAll(wk.respFd, &text[0], len); }
+            if (ok && text == "READY\n") { wk.ready = true; wk.t0 = verif::NowS(); continue; }   // warm-up (if any) is over, the scheduled execution starts now
             if (ok) { ParseOutcome(text, o); have = true; if (o.status != "OK") { ReapWorker(wi, NULL); SpawnWorker(wi); } }   // terminal status: that worker has exited
+            else if (!wk.ready && ++warmupDeaths <= 200) {
+               // the worker died before its READY marker, i.e. inside its free warm-up run (real concurrency): says nothing about this schedule => run it again elsewhere
+               ReapWorker(wi, NULL); SpawnWorker(wi); work.push_back(g_pool[wi].prefix); g_pool[wi].busy = false; nbusy--;
+               if (notes.size() < 20) notes.push_back("a worker ended inside its free warm-up run; schedule re-queued");
+               continue;
+            }
             else {
                int st = 0; ReapWorker(wi, &st); o.status = "CRASH"; o.points = 0; have = true;
                o.key = WIFSIGNALED(st) ? verif::Fmt("crash:sig%d", WTERMSIG(st)) : (WEXITSTATUS(st) == 87) ? "crash:asan" : (WEXITSTATUS(st) == 88) ? "crash:ubsan" : verif::Fmt("crash:exit%d", WEXITSTATUS(st));
                o.msg = "process died: " + Tail(verif::Fmt("/tmp/schedx_w%d_%d.err", (int)getpid(), (int)wi), 600);
                SpawnWorker(wi);
             }
+         } else if (nowT - wk.t0 > opt.execTimeoutS && !wk.ready && ++warmupDeaths <= 200) {
+            kill(wk.pid, SIGKILL); ReapWorker(wi, NULL); SpawnWorker(wi); work.push_back(g_pool[wi].prefix); g_pool[wi].busy = false; nbusy--; continue;
          } else if (nowT - wk.t0 > opt.execTimeoutS) {
             kill(wk.pid, SIGKILL); ReapWorker(wi, NULL); SpawnWorker(wi); o.status = "HANG"; o.key = "hang"; o.msg = "execution exceeded the real-time watchdog"; o.points = 0; have = true;
          }
